@@ -1182,6 +1182,15 @@ func (i *interpreter) conv(t_dst, t_src types.Type, x value) value {
 			if s.k == types.Bool {
 				return x
 			}
+			if dk.Kind() == types.Float64 || dk.Kind() == types.Float32 {
+				// floats only feed log fields and human-readable sizes in the code under test;
+				// the approximation is recorded so a run that depends on it can be identified
+				i.px.res.Reached["engine:symbolic-integer-to-float-approximated-as-0"] = true
+				if dk.Kind() == types.Float32 {
+					return float32(0)
+				}
+				return float64(0)
+			}
 			if !isIntKind(dk.Kind()) {
 				i.px.abort(stUnsupported, "conversion of symbolic integer to %s", dk)
 			}
